@@ -657,8 +657,8 @@ def selftest():
     run("WriterTrace", "L1", t, "writer L1: a rejected call recorded as ok", {k})
     # codec
     cdc = gen("codec", "codec", cut=False)
-    t, k = corrupt(cdc, lambda e: e.get("fn") == "read_vint" and e.get("res") == "ok", lambda e: e.__setitem__("len", e["len"] + 1))
-    run("CodecTrace", "C15", t, "codec: consumed length of one read_vint + 1", {k})
+    t, k = corrupt(cdc, lambda e: e.get("fn") == "as_vint_w" and e.get("res") == "ok", lambda e: e["bytes"].__setitem__(0, (e["bytes"][0] + 1) % 256))
+    run("CodecTrace", "C15", t, "codec: first byte of one as_vint_with_length result changed", {k})
     # paths
     pth = gen("paths", "paths")
     t, k = corrupt(pth, lambda e: e.get("ev") == "path" and e.get("w") == "ok", lambda e: e.__setitem__("w", "unexpected_tag"))
